@@ -1462,6 +1462,19 @@ impl<'de, R: Read<'de>> de::SeqAccess<'de> for ArrayAccess<'_, R> {
         match self.count {
             0 => {
                 self.de.elem_format_code = None;
+                // The array ends where its size field says, not where its last element
+                // happened to end: what is left of the body (this crate's own encoder
+                // writes one byte per element of a zero-width type) belongs to the array
+                // and must not be taken for the value that follows it
+                let consumed = self
+                    .de
+                    .reader
+                    .bytes_consumed()
+                    .saturating_sub(self.start_pos);
+                if consumed < self.size {
+                    let _rest = self.de.reader.read_bytes(self.size - consumed)?;
+                    self.size = consumed;
+                }
                 Ok(None)
             }
             _ => {
